@@ -64,6 +64,18 @@ INSTR = {
     'test': (['out', 'amp', 'gate'], True),
     'nogate': (['freq', 'amp', 'pan', 'out'], False),
 }
+# the instrument 'user' can be re-defined with another control list while
+# the program runs: (control names in slot order, has_gate) per variant
+USER_VARIANTS = [(['freq', 'amp', 'gate'], True),
+                 (['freq', 'amp', 'pan', 'out', 'gate'], True),
+                 (['out', 'freq', 'pan'], False)]
+
+
+def instr_of(ev):
+    name = ev.get('instrument', 'default')
+    if name == 'user':
+        return USER_VARIANTS[ev.get('_variant', 0)]
+    return INSTR[name]
 
 
 # ------------------------------------------------------------ generation
@@ -187,8 +199,26 @@ def gen_case(tp, tier):
             ev['instrument'] = tp.choice(['default', 'default', 'test',
                                           'nogate'])
             evs.append(ev)
-        return {'kind': kind, 'events': evs, 'knobs': kn,
+        case = {'kind': kind, 'events': evs, 'knobs': kn,
                 'clock': tp.choice(['sys', 'tempo'])}
+        if tp.draw(4) == 0:
+            # the instrument 'user' is defined, used, defined again with
+            # other controls and used again
+            if len(evs) < 2:
+                evs.append(gen_keys(tp))
+            v0 = tp.draw(len(USER_VARIANTS))
+            v1 = (v0 + 1 + tp.draw(len(USER_VARIANTS) - 1)) \
+                % len(USER_VARIANTS)
+            at = 1 + tp.draw(len(evs) - 1)
+            for i, ev in enumerate(evs):
+                if i in (at - 1, at) or tp.draw(2) == 0:
+                    ev['instrument'] = 'user'
+                    ev['_variant'] = v0 if i < at else v1
+                    for k in ('pan', 'out'):
+                        if k not in ev and tp.draw(2) == 0:
+                            ev[k] = {'pan': 0.5, 'out': 2}[k]
+            case['redef'] = [v0, v1, at]
+        return case
     return {'kind': kind, 'pats': [gen_pat(tp)
                                    for _ in range(1 + tp.draw(2))],
             'knobs': kn, 'clock': tp.choice(['sys', 'tempo']),
@@ -202,13 +232,21 @@ def shrink_candidates(case):
             if len(case['events']) > 1:
                 c = copy.deepcopy(case)
                 del c['events'][i]
+                if c.get('redef') and i < c['redef'][2]:
+                    c['redef'][2] -= 1
                 yield c
         for i, ev in enumerate(case['events']):
             for k in list(ev):
-                if k != 'instrument':
-                    c = copy.deepcopy(case)
-                    del c['events'][i][k]
-                    yield c
+                if k == 'instrument' or k.startswith('_'):
+                    continue
+                c = copy.deepcopy(case)
+                del c['events'][i][k]
+                if k in ('degree', 'note', 'midinote', 'freq'):
+                    # its modifiers alone have no specified meaning
+                    for kk in ('mtranspose', 'gtranspose', 'ctranspose',
+                               'octave', 'root', 'scale'):
+                        c['events'][i].pop(kk, None)
+                yield c
     else:
         for i in range(len(case['pats']) - 1, -1, -1):
             if len(case['pats']) > 1:
@@ -329,7 +367,7 @@ def expected_msgs(ev, t, latency):
     if r['rest']:
         return [], r
     instr = ev.get('instrument', 'default')
-    ctls, has_gate = INSTR[instr]
+    ctls, has_gate = instr_of(ev)
     params = []
     for c in ctls:
         if c == 'gate' and has_gate:
@@ -341,7 +379,8 @@ def expected_msgs(ev, t, latency):
     out = [(t + latency, 's_new',
             {'instr': instr, 'action': ACTION_NUM[ev.get('add_action',
                                                          'addToHead')],
-             'group': ev.get('group', 1), 'params': params})]
+             'group': ev.get('group', 1), 'params': params,
+             'has_gate': has_gate})]
     if has_gate:
         out.append((t + latency + r['sustain'], 'gate_off', None))
     return out, r
@@ -460,6 +499,8 @@ def make_event(ev):
     import sc3.seq.scale as scl
     d = {}
     for k, v in ev.items():
+        if k.startswith('_'):
+            continue                  # model-only annotation
         if k == 'scale':
             d[k] = make_scale(v)
         elif isinstance(v, list):
@@ -482,6 +523,25 @@ def define_instruments():
     sdf.SynthDef('nogate', nogate).add()
 
 
+def define_user(variant):
+    import sc3.synth.synthdef as sdf
+    import sc3.synth.ugens as u
+    import sc3.synth.envelope as evp
+
+    def v0(freq=440, amp=0.1, gate=1):
+        u.Out.ar(0, u.SinOsc.ar(freq) * amp * u.EnvGen.kr(
+            evp.Env.asr(), gate, done_action=2))
+
+    def v1(freq=440, amp=0.1, pan=0, out=0, gate=1):
+        u.Out.ar(out, u.Pan2.ar(u.SinOsc.ar(freq) * amp * u.EnvGen.kr(
+            evp.Env.asr(), gate, done_action=2), pan))
+
+    def v2(out=0, freq=440, pan=0):
+        u.Out.ar(out, u.Pan2.ar(u.SinOsc.ar(freq) * u.Line.kr(
+            0.1, 0, 0.5, done_action=2), pan))
+    sdf.SynthDef('user', [v0, v1, v2][variant]).add()
+
+
 def program(case, main, lookups):
     import sc3.base.stream as sstm
     import sc3.base.clock as sclk
@@ -489,8 +549,13 @@ def program(case, main, lookups):
     def body(inval):
         define_instruments()
         clock = sclk.TempoClock(1) if case['clock'] == 'tempo' else None
+        redef = case.get('redef')
+        if redef:
+            define_user(redef[0])
         if case['kind'] == 'single':
-            for ev in case['events']:
+            for i, ev in enumerate(case['events']):
+                if redef and i == redef[2]:
+                    define_user(redef[1])
                 e = make_event(ev)
                 lookups.append({k: float(e(k)) for k in
                                 ('freq', 'amp', 'delta', 'sustain')})
@@ -666,7 +731,7 @@ def check_bundles(world, got, case, latency, viol, stats, rel, lo=1000,
         ids.setdefault((round(t, 6)), []).append((nid, ev))
         # gate off
         r = resolve(ev)
-        _, has_gate = INSTR[pay['instr']]
+        has_gate = pay['has_gate']
         want_off = t + r['sustain']
         offs = [(i, x) for i, x in enumerate(gates) if x[1][1] == nid]
         if has_gate:
@@ -781,7 +846,7 @@ def _mono_rest(world, got, nid, gid, evs, names, times, t0, tot, latency,
         stats['mono-sets'] = stats.get('mono-sets', 0) + 1
     # release at the end of the stream
     t_end = t0 + tot + latency
-    _, has_gate = INSTR[pay['instr']]
+    has_gate = pay['has_gate']
     want = ['/n_set', nid, 'gate', 0] if has_gate else ['/n_free', nid]
     hit = None
     for i, (gt, gm) in enumerate(got):
@@ -813,6 +878,8 @@ def params_match(got, want, rel):
 def run_case(case, tape, ctx):
     viol = C.Violations()
     stats = {}
+    if case.get('redef'):
+        stats['instrument-redefined'] = 1
     nrt = S.subrun(tape, lambda st, emit: run_nrt(case, st, emit))
     rt = S.subrun(tape, lambda st, emit: run_rt(case, st, emit))
     agg = W.combine([rt])
